@@ -31,7 +31,9 @@ RULE = (
     "XMLFormatter / Patcher instance with history, (d) after diffing namespaced documents that bind the same prefixes to other URIs "
     "(process-global lxml registry); serialisations of both inputs and of the action list before/after every call; (e) a fixed corpus "
     "(incl. several new attributes sharing a removed attribute's value) run in subprocesses under PYTHONHASHSEED in {0, 1, 7, 1234} "
-    "(quick: {0, 7}) with identical digests. Non-trivial = non-empty script and a history of >= 2 calls; distinct by (L, R, options, history)."
+    "(quick: {0, 7}) with identical digests; (f) the same document pairs under every matching mode x ratio mode, the calls made in "
+    "order by one fresh process and in reverse order by another - every call must give the same script; (g) _ElementTree inputs, a "
+    "Patcher and an XMLFormatter across pairs that re-bind one prefix. Non-trivial = non-empty script and a history of >= 2 calls; distinct by (L, R, options, history)."
 )
 ASSUMPTIONS = ["XMLFormatter modifies the trees it is given in prepare() by design (the property excludes it from the no-modification clause); it gets fresh copies"]
 
